@@ -66,6 +66,17 @@ pub mod audit {
 
     static ENABLED: AtomicBool = AtomicBool::new(false);
     static MAP: Lazy<Mutex<HashMap<u16, Record>>> = Lazy::new(|| Mutex::new(HashMap::new()));
+    static LOOKUPS: Lazy<Mutex<HashMap<u16, u64>>> = Lazy::new(|| Mutex::new(HashMap::new()));
+
+    /// number of lookups made so far for this source port (lets a test wait until an accept has looked it up)
+    pub fn lookups(source_port: u16) -> u64 {
+        LOOKUPS
+            .lock()
+            .unwrap()
+            .get(&source_port)
+            .copied()
+            .unwrap_or(0)
+    }
 
     pub fn enable() {
         ENABLED.store(true, Ordering::SeqCst);
@@ -99,6 +110,7 @@ pub mod audit {
         }
         let m = MAP.lock().unwrap();
         let hit = m.get(&source_port).copied();
+        *LOOKUPS.lock().unwrap().entry(source_port).or_insert(0) += 1;
         super::trace::emit(
             serde_json::json!({"e": "AuditLookup", "port": source_port, "hit": hit.is_some()}),
         );
